@@ -10,12 +10,17 @@ inputs, that they equal the hand-written Coq models.
 3. assembles coq/translate/Equiv.v (header + the selected groups), appends a Print Assumptions over
    all T_ lemmas, and compiles it against the regenerated file under a shell timeout.
 
+The T_ lemmas of the integer/bit/byte groups must be closed under the global context; those of the
+floating-point groups (physical, apidecide: Flocq) may depend on the standard-library axioms of
+vlib.AXIOM_WHITELIST and on nothing else.
+
 Failure of any step is a broken tie: res.violation("translated source no longer equals the model:
 ...", no_input=True) naming the lemma / the translator's file:line message. On success one line is
 added to res.corr_obligations and the counts go to res.cov["translation_tie"].
 
 `functions`: None = every group of Equiv.v; otherwise an iterable of group names ("can",
-"descriptor", "wire") and/or translated function names ("Data_Bit", "Signal_MaxUnsigned", ...):
+"descriptor", "wire", "physical", "apidecide", "netlink", "scan") and/or translated function names
+("Data_Bit", "Signal_MaxUnsigned", ...):
 the groups containing them, plus the groups those require, are checked (a group is the unit because
 the generated records contain exactly the struct fields the translated functions use).
 
@@ -34,6 +39,26 @@ import time
 if __name__ == "__main__":  # python3 checks/translate_tie.py [group|function ...]
     sys.path.insert(0, os.path.dirname(os.path.dirname(os.path.abspath(__file__))))
 import vlib  # noqa: E402
+
+TIE_TEXT = (" In addition the model is REGENERATED from the source on every run: harness/translate translates the Go functions "
+            "%s (go/types-checked subset) to Gallina and coq/translate/Equiv.v re-proves, for all inputs, that each translated "
+            "function equals the hand-written model; a semantic change of a translated function breaks that proof obligation.")
+TIE_NOTE_INT = (" Added trusted base of the translation tie: the translator harness/translate/main.go (unverified Go program) and "
+                "Translate/GoSem.v's reading of Go's integer semantics.")
+TIE_NOTE_FLOAT = (" The translated float64/float32 operations are read as one IEEE-754 round-to-nearest-even operation per Go operator "
+                  "(Translate/GoSemFloat.v on Flocq: no FMA fusion, amd64, a single NaN, math.Max/Min by the case order of dim.go, "
+                  "constants = the bit pattern go/types computes); the T_ lemmas of these groups depend on the standard-library "
+                  "real-number axioms that Flocq uses and on nothing else.")
+TIE_NOTE_SLICE = (" Translated []byte values are their contents (nil = empty, no aliasing: only stores into a make'd local are "
+                  "accepted), slice/index panics are not modelled by the translation (the hand model's checked slicing is what the "
+                  "no-out-of-bounds theorems are about), nlenc is little-endian.")
+
+
+def describe(properties, pid, functions, *notes):
+    """append the tie's claim and trusted-base text to a family's PROPERTIES[pid] (MANIFEST level text / note)"""
+    p = properties[pid]
+    properties[pid] = dict(p, text=p["text"] + TIE_TEXT % functions, note=p["note"] + "".join(notes))
+
 
 EQUIV = os.path.join(vlib.COQ, "translate", "Equiv.v")
 _GROUP = re.compile(r"^\(\* @group (\w+)(?: requires ([\w ]+?))? \*\)\s*$", re.M)
@@ -101,7 +126,8 @@ def _definition_of(translated_src, name):
 
 
 TRUSTED = ("translation tie: the translator harness/translate/main.go (unverified Go program; go/parser, go/types, "
-           "x/tools/go/packages) and Translate/GoSem.v's reading of Go's integer semantics")
+           "x/tools/go/packages) and Translate/GoSem.v's / GoSemFloat.v's reading of Go's integer, slice and "
+           "floating-point semantics (see the headers of those files)")
 
 
 def _hook_finish(res, line):
@@ -184,7 +210,9 @@ def run_tie(res, functions=None, timeout=240):
                           {"functions_without_lemma": orphan})
         # 2. theories needed (GoSem + the hand models), then the generated file
         targets = ["theories/Translate/GoSem.vo", "theories/Translate/GoSemProofs.vo"]
-        for m in re.finditer(r"^\s*From CanVerif Require(?: Import| Export)? ([\w. ]+)\.\s*$", stripped, re.M):
+        # (Translated.v imports Translate.GoSemFloat only when a translated function mentions a float type)
+        for m in re.finditer(r"^\s*From CanVerif Require(?: Import| Export)? ([\w. ]+)\.\s*$",
+                             vlib.strip_coq_comments(tsrc) + "\n" + stripped, re.M):
             for mod in m.group(1).split():
                 t = "theories/" + mod.replace(".", "/") + ".vo"
                 if t not in targets:
@@ -223,16 +251,28 @@ def run_tie(res, functions=None, timeout=240):
             why = "timeout" if rc == 124 else "rc=%d" % rc
             return broken("Equiv.v does not compile against the regenerated Translated.v (%s)" % why,
                           {"coqc_output": o2[-3000:]})
+        # integer/bit groups: closed under the global context. Groups on Flocq (floats): only the
+        # standard-library axioms that Flocq's own lemmas bring in (vlib.AXIOM_WHITELIST, DESIGN.md 9.5).
         closed = len(re.findall(r"Closed under the global context", o2))
+        axioms = set()
+        for block in re.findall(r"Axioms:\n((?:.+\n?)+?)(?=\n\S|\Z|Closed under|Axioms:)", o2):
+            for am in re.finditer(r"^([A-Za-z_][\w.']*)\s*:", block, re.M):
+                axioms.add(am.group(1))
+        bad = sorted(a for a in axioms if a not in vlib.AXIOM_WHITELIST and a.split(".")[-1] not in vlib.AXIOM_WHITELIST)
+        n_blocks = closed + len(re.findall(r"^Axioms:", o2, re.M))
         cov["closed_under_global_context"] = bool(closed == 1)
-        if closed != 1:
-            return broken("the T_ lemmas depend on axioms: " + " ".join(o2.split())[-300:], {"print_assumptions": o2[-3000:]})
+        cov["axioms"] = sorted(axioms)
+        if bad or n_blocks != 1 or (closed != 1 and not axioms):
+            return broken("the T_ lemmas depend on axioms outside the standard-library whitelist: "
+                          + (", ".join(bad) or " ".join(o2.split())[-300:]), {"print_assumptions": o2[-3000:]})
         cov["ok"] = True
         cov["wall_s"] = round(time.time() - t0, 2)
         line = ("Translated.v regenerated from %s's current %s (%d functions) and proved equal to the hand model "
-                "for all inputs (Equiv.v: %d lemmas, groups %s, all closed under the global context)" % (
+                "for all inputs (Equiv.v: %d lemmas, groups %s, %s)" % (
                     vlib.REPO, "|".join(files) or "source",
-                    len(translated), len(lemma_names), "+".join(sel)))
+                    len(translated), len(lemma_names), "+".join(sel),
+                    "all closed under the global context" if closed == 1 else
+                    "axioms: only the standard-library ones reached through Flocq (%s)" % ", ".join(sorted(axioms))))
         res.corr_obligations.append(line)
         _hook_finish(res, line)
         return True
